@@ -285,9 +285,15 @@ def check(rep, tier, seed):
                     sigs[label].setdefault(_json.dumps(sg, sort_keys=True), wit)
                 rep.case(("replay", mname, label), n=max(1, sh.evaluations))
                 rep.count("replayed_cases_" + label, sh.evaluations)
+            own, _fx = report.load_findings(mname.upper())
             for key, wit in sigs["injected"].items():
                 if key not in sigs["plain"]:
                     sg = _json.loads(key)
+                    # a listed finding of the workload's own property is that property's business, whichever run shows it
+                    # (the slower injected run can surface a known defect under another operation name)
+                    if any(report._match(f["match"], sg) for f in own if f["property"] == mname.upper()):
+                        rep.count("replay_signatures_covered_by_the_workloads_own_findings")
+                        continue
                     rep.violation({"check": "replay-under-injection", "workload": mname, "how": "only-under-injection",
                                    "mode": sg.get("mode") or sg.get("kind") or sg.get("check")},
                                   {"workload_signature": sg, "witness": wit})
